@@ -8,7 +8,7 @@ NOTES = ("Every check: bin/check <id> --tier quick|thorough; honours VERIF_SEED;
          "status fixed -> suppresses nothing). Exit 2 = checker failure, never a VIOLATION.")
 
 ENGINES = [
-    {"name": "contract", "path": "spec/Contract.tla spec/ContractTrace.tla spec/TileGrid.tla",
+    {"name": "contract", "path": "spec/Contract.tla spec/ContractTrace.tla spec/TileGrid.tla spec/Mel.tla spec/MC_Mel.tla spec/MelTrace.tla",
      "serves_properties": ["C02", "C03", "C04", "C05", "C06", "C07", "C19"],
      "kind_free_text": "TLA+ trace specification of the abstract codec channel (identity / value identity / NEAR bound / byte identity, "
                        "geometry), with T.800 Annex B tile geometry for classification; TLC validates ndjson traces of the real codecs"},
@@ -101,7 +101,7 @@ CHECKS = {
                      "BitsStored <= BitsAllocated, signed/unsigned; TLC checks byte identity; known finding keyed by a predicate TLC "
                      "evaluates from the stream's COD marker. The 14 third-party OpenJPH/fo-dicom codestreams of test-data/htj2k/interop "
                      "are decoded through the registered codecs and compared with their raw images.",
-                note=A_CONTRACT + "; the HT cleanup pass is not transcribed"),
+                note=A_CONTRACT + "; of the HT cleanup pass only the MEL coder is transcribed (spec/Mel.tla, informational companion)"),
     "C07": dict(engine="contract", level="model_checking", design_ref="DESIGN.md 7/C07",
                 technique="TLC evaluates the per-sample NEAR bound and range on traces",
                 text="Every P in 2..16 x NEAR sweep, NEAR-aware content (range ends, ramps of step 2N+1/2N, slow RGB ramps, saturated "
